@@ -173,8 +173,9 @@ class Ctx:
         mv = re.search(r"Invariant (\S+) is violated", out)
         if mv:
             r.violated = mv.group(1)
-        elif "Temporal properties were violated" in out:
-            r.violated = "temporal"
+        elif "Temporal properties were violated" in out or re.search(r"Temporal property \S+ was violated", out):
+            m2 = re.search(r"Temporal property (\S+) was violated", out)
+            r.violated = m2.group(1) if m2 else "temporal"
         elif re.search(r"Action property (\S+) is violated", out):
             r.violated = re.search(r"Action property (\S+) is violated", out).group(1)
         elif "Deadlock reached" in out:
@@ -185,7 +186,8 @@ class Ctx:
             i = out.find("Error:")
             r.cex = out[i:]
         if coverage:
-            r.coverage_zero = re.findall(r"^<(\w+) line .*>: 0:0$", out, re.M)
+            fin = out.rfind("The coverage statistics at")
+            r.coverage_zero = re.findall(r"^<(\w+) line .*>: 0:0$", out[fin:] if fin >= 0 else out, re.M)
         errs = [l for l in out.splitlines() if l.startswith("Error:") or "Exception" in l]
         finished = "Model checking completed. No error has been found." in out or (simulate and "traces generated" in out and not errs)
         if simulate and p.returncode == 0:
@@ -276,27 +278,47 @@ class Ctx:
         return r
 
     # ---------------------------------------------------------------- Go harness
-    def go_env(self, extra=None):
+    def go_env(self, extra=None, repo=None):
+        """repo: build the harness against this copy of the repository instead of /repo's working tree
+        (used for derived variants, e.g. a scratch copy with a platform constant changed)."""
         env = dict(os.environ)
         env.update(GOENV)
         env["VERIF_SEED"] = str(self.seed)
         env["VERIF_TIER"] = self.tier
         env["VERIF_SCRATCH"] = self.scratch
-        env["VERIF_REPO"] = REPO
-        if REPO != "/repo":
-            # mutation testing against a scratch copy of the repository: alternate go.mod with the replace redirected
-            alt = os.path.join(self.scratch, "go.alt.mod")
+        rp = repo or REPO
+        env["VERIF_REPO"] = rp
+        if rp != "/repo":
+            # a scratch copy of the repository: alternate go.mod with the replace redirected
+            tag = hashlib.sha1(rp.encode()).hexdigest()[:8]
+            alt = os.path.join(self.scratch, "go.alt.%s.mod" % tag)
             if not os.path.exists(alt):
-                src = open(os.path.join(VERIF, "harness", "go.mod")).read().replace("=> /repo", "=> " + REPO)
+                src = open(os.path.join(VERIF, "harness", "go.mod")).read().replace("=> /repo", "=> " + rp)
                 open(alt, "w").write(src)
-                shutil.copy(os.path.join(VERIF, "harness", "go.sum"), os.path.join(self.scratch, "go.alt.sum"))
+                shutil.copy(os.path.join(VERIF, "harness", "go.sum"), os.path.join(self.scratch, "go.alt.%s.sum" % tag))
             env["GOFLAGS"] = "-mod=mod -modfile=" + alt
         if extra:
             env.update({k: str(v) for k, v in extra.items()})
         return env
 
+    def repo_variant(self, name, edits):
+        """Copy the repository under test (current working tree) into the scratch dir and apply textual edits
+        [(relative_path, old, new), ...]; each old string must occur exactly once.  Returns the path, to be
+        passed as go_test(..., repo=path).  Used to build platform variants (e.g. chacha20 with the 256-byte
+        buffer of arm64/s390x/ppc64) on this machine."""
+        dst = os.path.join(self.scratch, "repo_" + name)
+        if not os.path.exists(dst):
+            subprocess.run(["rsync", "-a", "--exclude", ".git", REPO + "/", dst + "/"], check=True)
+            for rel, old, new in edits:
+                p = os.path.join(dst, rel)
+                src = open(p).read()
+                if src.count(old) != 1:
+                    raise Infra("repo_variant %s: %r occurs %d times in %s" % (name, old, src.count(old), rel))
+                open(p, "w").write(src.replace(old, new))
+        return dst
+
     def go_test(self, pkg, run, env=None, timeout=600, race=False, tags="verif", cases=None, cwd=None,
-                allow_fail=False, extra_args=None):
+                allow_fail=False, extra_args=None, repo=None):
         """Run `go test -tags verif -run <run> ./<pkg>/` in /verif/harness (rebuilt against /repo's
         working tree).  cases: python list (written as ndjson to VERIF_CASES) or a path.
         Returns the decoded VERIF_OUT object (dict).  Raises Infra if the driver died."""
@@ -322,7 +344,7 @@ class Ctx:
         cmd += (extra_args or [])
         cmd.append("./" + pkg + "/")
         t0 = time.time()
-        p = subprocess.run(cmd, cwd=cwd or os.path.join(VERIF, "harness"), env=self.go_env(e),
+        p = subprocess.run(cmd, cwd=cwd or os.path.join(VERIF, "harness"), env=self.go_env(e, repo=repo),
                            capture_output=True, text=True)
         self.extra.setdefault("go_runs", []).append({"pkg": pkg, "run": run, "wall_s": round(time.time() - t0, 1),
                                                      "rc": p.returncode, "tags": tags, "race": race})
